@@ -155,6 +155,41 @@ func thunkTarget(f *ssa.Function) *ssa.Function {
 	return f
 }
 
+// mustPop: every path through g pops the state stack once (directly, or through such a helper).
+func (m *cssModel) mustPop(g *ssa.Function, depth int) bool {
+	if g == nil || depth > 2 || len(g.Blocks) == 0 {
+		return false
+	}
+	ops, known := m.ops[g]
+	if !known {
+		return false
+	}
+	domAllReturns := func(b *ssa.BasicBlock) bool {
+		for _, rb := range g.Blocks {
+			if _, isRet := lastInstr(rb).(*ssa.Return); isRet && rb != b && !b.Dominates(rb) {
+				return false
+			}
+		}
+		return true
+	}
+	for _, op := range ops {
+		if op.kind == "pop" && domAllReturns(op.in.Block()) {
+			return true
+		}
+	}
+	for _, b := range g.Blocks {
+		if !domAllReturns(b) {
+			continue
+		}
+		for _, in := range b.Instrs {
+			if c, isCall := in.(*ssa.Call); isCall && c.Call.StaticCallee() != g && m.mustPop(c.Call.StaticCallee(), depth+1) {
+				return true
+			}
+		}
+	}
+	return false
+}
+
 func cssParserFuncs(r *core.Run) []*ssa.Function {
 	var out []*ssa.Function
 	for _, fn := range allModuleFuncs(r) {
@@ -824,6 +859,17 @@ func runBeginEnd(r *core.Run) {
 			for _, op := range m.ops[t] {
 				if op.kind == "pop" && (op.in.Block() == b || op.in.Block().Dominates(b)) {
 					popped = true
+				}
+			}
+			// ... or through a helper that pops on every path (p.popState())
+			for _, tb := range t.Blocks {
+				if tb != b && !tb.Dominates(b) {
+					continue
+				}
+				for _, in := range tb.Instrs {
+					if c, isCall := in.(*ssa.Call); isCall && m.mustPop(c.Call.StaticCallee(), 0) {
+						popped = true
+					}
 				}
 			}
 			n++
